@@ -9,7 +9,7 @@
    implementation and by byte-exact correspondence of the session model, not by a theorem (DESIGN.md, C01). *)
 From Coq Require Import ZArith List Bool.
 From Coq Require String.
-Require Import PyLib SuiteTypes Crypto KeySchedule Packet Reassembly Decryptor TlsSession TlsRecords C01P Hs13P C01SessionP C01Session12P HelloP.
+Require Import PyLib SuiteTypes Crypto KeySchedule Packet Reassembly Decryptor TlsSession TlsRecords C01P Hs13P C01SessionP C01Session12P C01SessionLegacyP HelloP.
 Import ListNotations.
 Open Scope Z_scope.
 
@@ -230,3 +230,34 @@ Theorem C01_tls13_keys_installed : forall C tbl parts keylog s suite sr cs a kl 
             switch_ready d true sak sai /\ switch_ready d false cak cai.
 Proof. exact tls13_keys_installed. Qed.
 Print Assumptions C01_tls13_keys_installed.
+
+(* ---------------- the remaining classes of TLS <= 1.2 at the level of the session ---------------- *)
+(* The bookkeeping (ChangeCipherSpec flags, Finished as a protected handshake record, application records, metadata entries) is proved
+   once for any class given by a sender, a joint invariant Q of the decryptor and the two senders, and a one-record lemma `step`
+   (C01_session_generic); RC4, CBC with explicit IVs (TLS 1.1, 1.2) and CBC with chained IVs (SSL 3.0, TLS 1.0) instantiate it.
+   In each: behind the ServerHello, from the ChangeCipherSpec records on, any interleaving of the two directions' ChangeCipherSpec,
+   Finished and application records is handled in step with the senders, and exactly the application contents are exported as
+   application data, in order. *)
+Theorem C01_rc4_session : forall C, CryptoLaws C -> forall tbl parts keylog version key_c key_s mlen evs s stc sts ccc scc stc' sts' rs,
+  InvG (Qrc4 key_c key_s mlen) s stc sts ccc scc (length evs) -> Forall (evG_ok (bytes * bytes) (fun x => len (snd x) = mlen)) evs -> orderedG (bytes * bytes) ccc scc evs ->
+  playG version (bytes * bytes) (send_rc4_dir C version key_c key_s) stc sts evs = Ok (stc', sts', rs) ->
+  exists s' out ccc' scc', session_run C tbl parts keylog s rs = Ok (s', out) /\ dataG out = flat_map (appG (bytes * bytes) fst) evs /\
+                           InvG (Qrc4 key_c key_s mlen) s' stc' sts' ccc' scc' 0.
+Proof. exact rc4_session. Qed.
+Print Assumptions C01_rc4_session.
+
+Theorem C01_cbc_explicit_session : forall C, CryptoLaws C -> forall tbl parts keylog version key_c key_s a etm mlen evs s stc sts ccc scc stc' sts' rs,
+  InvG (Qcbce key_c key_s a etm mlen) s stc sts ccc scc (length evs) -> Forall (evG_ok xe (xe_ok a mlen)) evs -> orderedG xe ccc scc evs ->
+  playG version xe (send_cbce_dir C version key_c key_s a etm) stc sts evs = Ok (stc', sts', rs) ->
+  exists s' out ccc' scc', session_run C tbl parts keylog s rs = Ok (s', out) /\ dataG out = flat_map (appG xe xe_content) evs /\
+                           InvG (Qcbce key_c key_s a etm mlen) s' stc' sts' ccc' scc' 0.
+Proof. exact cbc_explicit_session. Qed.
+Print Assumptions C01_cbc_explicit_session.
+
+Theorem C01_cbc_chained_session : forall C, CryptoLaws C -> forall tbl parts keylog version key_c key_s a etm mlen bl evs s stc sts ccc scc stc' sts' rs,
+  InvG (Qcbcc key_c key_s a etm mlen bl) s stc sts ccc scc (length evs) -> Forall (evG_ok xc (xc_ok mlen)) evs -> orderedG xc ccc scc evs ->
+  playG version xc (send_cbcc_dir C version key_c key_s a etm bl) stc sts evs = Ok (stc', sts', rs) ->
+  exists s' out ccc' scc', session_run C tbl parts keylog s rs = Ok (s', out) /\ dataG out = flat_map (appG xc xc_content) evs /\
+                           InvG (Qcbcc key_c key_s a etm mlen bl) s' stc' sts' ccc' scc' 0.
+Proof. exact cbc_chained_session. Qed.
+Print Assumptions C01_cbc_chained_session.
